@@ -78,14 +78,27 @@ def tracker_method(method):
 def run(tier, seed, t0):
     tr = load('tracker')
     tasks = [Task(f'C06/tracker/{m}', tracker_method, m, weight=10 if m == 'met_dependents' else 1) for m in tr.METHODS]
-    obs = oblig.run_tasks(tasks)
-    try:
-        from . import c06_solver
-        obs += c06_solver.obligations(tier, seed)
-    except ImportError:
-        pass
+    from . import solver_props as sp
+    tasks.append(Task('C06/bounded-work', bounded_work, tier, seed, weight=3))
+    obs = sp.gather('C06', tier, seed, tasks)
     return oblig.finish('C06', tier, seed, obs, t0,
-                        functions=[f'solver.py:DependencyTracker.{m}' for m in tr.METHODS],
-                        trusted_base=base.TRUSTED + ['contracts/core/tracker.py'],
-                        assumptions=base.assumptions('A-PY', 'A-BAG', 'A-GEN'),
-                        checker_cmd='./check C06', min_obligations=30)
+                        functions=[f'solver.py:DependencyTracker.{m}' for m in tr.METHODS] + ['solver.py:Solver.solve', 'solver.py:Solver._attempt_field', 'solver.py:Solver._attempt_input'],
+                        trusted_base=sp.TRUST,
+                        assumptions=sp.ASSUME + ['termination of solve() and the per-line evaluation bound are NOT discharged deductively; they are covered only by the bounded stand-in listed under "bounded"',
+                                                 '"each missing input is asked at most once" follows from the discharged prompt-site obligations (asked only while not refused and not yet supplied; an answer makes it supplied, a refusal sets the refusal flag, neither is ever undone)'],
+                        checker_cmd='./check C06', min_obligations=60)
+
+
+def bounded_work(tier, seed):
+    """Bounded stand-in (never counted as proved): toy form programs on the real solver;
+    termination within budget, evaluations <= 2 + distinct waits, each input asked at most once."""
+    from .. import toyforms
+    n = 300 if tier == 'quick' else 5000
+    found = toyforms.search('C06', seed, n)
+    cases = sum(1 for _ in toyforms.scenarios(seed, n))
+    if found:
+        return [Ob(id='C06/bounded/work-and-termination', status=oblig.REFUTED, backend='native', bounded=True, cases=cases, function='solver.py:Solver.solve',
+                   clause=found['violated'], witness={k: found[k] for k in ('program', 'requested', 'provided', 'answers', 'refuse_after')},
+                   replay={'reproduced': True, 'native_counterexample': found}, replay_spec={'kind': 'toy', 'prop': 'C06', 'scenario': {k: found[k] for k in ('program', 'requested', 'provided', 'answers', 'refuse_after')}})]
+    return [Ob(id='C06/bounded/work-and-termination', backend='native', bounded=True, cases=cases, function='solver.py:Solver.solve',
+               note=f'{cases} toy scenarios (fixed programs incl. cycles, cross-form double references, unknown form + {n} seeded random programs x 5 input/prompt/refusal patterns): all terminate, evaluations <= 2 + distinct waits, no input asked twice')]
